@@ -231,3 +231,42 @@ Example rt_unicode_example :
   /\ ex_origin_of t_https_a_xn_bcher = Some (OOk o 0)
   /\ ex_origin_of t_https_a_bucher = Some (OOk o 0).
 Proof. vm_compute. repeat split; reflexivity. Qed.
+
+(* ---------- the exclusion of Known_C12 is necessary (F-C12-1 at the level of origins = F-C16-1) ----------
+   https://xn--xn--ss-ztda/ parses (parser + host + IDNA model, adapter lowsan4, which satisfies the eight premises) to a
+   URL with the tuple origin (https, xn--xn--ss-ztda, 443); the domain IS a fixed point of the IDNA step and is outside
+   Known_C10_long, the ASCII serialization round-trips; but the domain is in Known_C12: origin.rs displays it as
+   xn--<U+02EF><U+02EF>ss, the Unicode serialization is https://xn--<U+02EF><U+02EF>ss, and Url::parse rejects that text
+   (IdnaError: a label that begins with xn-- and is not ASCII).  The real crates do the same (replayed: the `known`
+   mode of harness/src/bin/c16.rs). *)
+Definition t_https_xn_xn : list N := [104; 116; 116; 112; 115; 58; 47; 47] ++ W_C12_1 ++ [47].
+Definition t_https_xn_u : list N := [104; 116; 116; 112; 115; 58; 47; 47; 120; 110; 45; 45; 203; 175; 203; 175; 115; 115].
+Definition rt_unicode_refuted_stmt : Prop :=
+  exists A,
+    (AdapterOK A /\ AdapterUSV A /\ NvNoTrunc A /\ NvIdem A /\ AsciiNoMark A /\ MapPrefix A /\ NvMapFix A /\ NvNoGrow A)
+    /\ exists input u s d p,
+         url_parse true (host_parse (idna_of A true)) host_parse_opaque host_display input = POk u
+         /\ url_origin true (host_parse (idna_of A true)) host_parse_opaque host_display 0 u = OOk (Tuple s (HDomain d) p) 0
+         /\ idna_of A true d = Some d /\ Known_C10_long d = false /\ Known_C12 A true d DENY_URL HAllow = true
+         /\ (exists w, url_parse true (host_parse (idna_of A true)) host_parse_opaque host_display
+                         (ascii_serialization host_display (Tuple s (HDomain d) p)) = POk w
+                       /\ url_origin true (host_parse (idna_of A true)) host_parse_opaque host_display 0 w
+                          = OOk (Tuple s (HDomain d) p) 0)
+         /\ unicode_serialization host_display (origin_tu A true) (Tuple s (HDomain d) p) = t_https_xn_u
+         /\ url_parse true (host_parse (idna_of A true)) host_parse_opaque host_display t_https_xn_u = PErr IdnaError.
+Definition dummy_url : url := mkUrl [] 0 0 0 0 HI_None None 0 None None.
+Definition xn_url : url := Eval vm_compute in
+  match url_parse true (host_parse (idna_of lowsan4 true)) host_parse_opaque host_display t_https_xn_xn with
+  | POk u => u | _ => dummy_url end.
+Definition xn_w : url := Eval vm_compute in
+  match url_parse true (host_parse (idna_of lowsan4 true)) host_parse_opaque host_display
+          (ascii_serialization host_display (Tuple s_https (HDomain W_C12_1) 443)) with
+  | POk u => u | _ => dummy_url end.
+Lemma rt_unicode_refuted : rt_unicode_refuted_stmt.
+Proof.
+  exists lowsan4. split; [exact lowsan4_premises5|].
+  exists t_https_xn_xn, xn_url, s_https, W_C12_1, 443.
+  split; [vm_compute; reflexivity|]. split; [vm_compute; reflexivity|]. split; [vm_compute; reflexivity|].
+  split; [vm_compute; reflexivity|]. split; [vm_compute; reflexivity|].
+  split; [exists xn_w; split; vm_compute; reflexivity|]. split; vm_compute; reflexivity.
+Qed.
